@@ -4,7 +4,8 @@ h_resolve : longest-prefix, per-role resolution of StorageMapping (role presence
 h_move    : an index whose entries map to caches/remotes by key prefix is saved, collected, pushed (first round with symbolic
             upload failures, then a clean retry), fetched into an empty cache and checked out again.
 cube (h_move): mapping (0: one prefix; 1: `x` has its own remote; 2: `x` has its own cache and remote; 3: two disjoint prefixes `x`
-               and `y` - no root prefix - that designate the SAME cache and remote), rkind ("remote"|"base")
+               and `y` - no root prefix - that designate the SAME cache and remote; 4: the pushed index holds `x` as ONE unloaded
+               directory-object entry and `x/s` - a prefix inside it - has its own remote), rkind ("remote"|"base")
 """
 import hashlib
 
@@ -126,7 +127,7 @@ def h_move(pa: bool, pb: bool, py: bool, f0: bool, f1: bool, f2: bool, f3: bool)
             mk_remote = (lambda n: env.remote_odb(n)) if RKIND == "remote" else (lambda n: env.base_odb("remote_" + n))
             C0, R0 = env.local_odb("c0"), mk_remote("r0")
             C1 = env.local_odb("c1") if MAPPING == 2 else C0
-            R1 = mk_remote("r1") if MAPPING in (1, 2) else R0
+            R1 = mk_remote("r1") if MAPPING in (1, 2, 4) else R0
 
         def storage_map(idx, caches):
             if MAPPING == 3:
@@ -136,7 +137,9 @@ def h_move(pa: bool, pb: bool, py: bool, f0: bool, f1: bool, f2: bool, f3: bool)
                 return
             idx.storage_map.add_cache(ObjectStorage((), caches[0]))
             idx.storage_map.add_remote(ObjectStorage((), R0))
-            if MAPPING >= 1:
+            if MAPPING == 4:
+                idx.storage_map.add_remote(ObjectStorage(("x", "s"), R1))
+            elif MAPPING >= 1:
                 idx.storage_map.add_remote(ObjectStorage(("x",), R1))
             if MAPPING == 2:
                 idx.storage_map.add_cache(ObjectStorage(("x",), caches[1]))
@@ -150,6 +153,16 @@ def h_move(pa: bool, pb: bool, py: bool, f0: bool, f1: bool, f2: bool, f3: bool)
         except Exception as e:  # noqa: BLE001
             violation("save-raised", f"{type(e).__name__}: {e}")
             return True
+        if MAPPING == 4:
+            with NoTracing():
+                lazy = DataIndex()
+                for k, e in idx.items():
+                    if k == ("x",):
+                        lazy[k] = DataIndexEntry(key=k, meta=e.meta, hash_info=e.hash_info)  # unloaded directory object
+                    elif k[0] != "x":
+                        lazy[k] = DataIndexEntry(key=k, meta=e.meta, hash_info=e.hash_info, loaded=e.loaded)
+                storage_map(lazy, (C0, C1))
+                idx = lazy
         with NoTracing():
             # reachable object sets per remote, computed from the generated data
             def tree_oid(prefix):
@@ -161,12 +174,17 @@ def h_move(pa: bool, pb: bool, py: bool, f0: bool, f1: bool, f2: bool, f3: bool)
                 return t.oid
 
             x_objs = {_md5(v) for k, v in files.items() if k.startswith("x/")} | {tree_oid("x")}
-            if any(k.startswith("x/s/") for k in files):
-                x_objs.add(tree_oid("x/s"))
+            if any(k.startswith("x/s/") for k in files) and MAPPING != 4:
+                x_objs.add(tree_oid("x/s"))  # (the lazily held `x` lists its files flat: no nested directory object is reachable)
             y_objs = {_md5(files["y"])} if "y" in files else set()
             want = {id(R0): set(), id(R1): set()}
-            want[id(R1)] |= x_objs
-            want[id(R0)] |= y_objs
+            if MAPPING == 4:
+                xs_objs = {_md5(v) for k, v in files.items() if k.startswith("x/s/")}
+                want[id(R1)] |= xs_objs
+                want[id(R0)] |= y_objs | x_objs
+            else:
+                want[id(R1)] |= x_objs
+                want[id(R0)] |= y_objs
             hashes = {k: (e.hash_info.value if e.hash_info else None) for k, e in idx.items()}
         fbits = {_md5(FILES["x/a"]): f0, tree_oid("x"): f1, _md5(b""): f2, "other": f3}
         decided = {}
@@ -199,6 +217,8 @@ def h_move(pa: bool, pb: bool, py: bool, f0: bool, f1: bool, f2: bool, f3: bool)
                 # longer prefixes below P (observed behaviour, not excluded), but never objects that are reachable only from entries
                 # outside every prefix it is registered for, and never anything unreachable from the index
                 allowed = x_objs | y_objs if (rid == id(R0) and MAPPING != 2 or R1 is R0) else (x_objs if rid == id(R1) else x_objs | y_objs)
+                if MAPPING == 4 and rid == id(R1):
+                    allowed = xs_objs
                 if MAPPING == 2 and rid == id(R0):
                     allowed = x_objs | y_objs
                 if have[rid] - allowed:
